@@ -1,3 +1,4 @@
+import ThunderModel.Fed.Keys
 import Driver.Proto
 import ThunderModel.Fed.Normalize
 /-! C06 handler: the gateway model on one normalized query: plan, literal execution, the
@@ -53,6 +54,11 @@ end
 def handle : Handler := fun req => do
   let op ← str req "op"
   match op with
+  | "keysel" =>
+    let fields ← nats (← field req "fields")
+    let keys ← listOf (fun j => do pure (← nat j "s", ← nat j "f")) (← field req "keys")
+    let targets ← nats (← field req "targets")
+    pure <| Json.mkObj [("sel", Json.arr ((TM.Fed.Keys.keySel fields (fun s f => keys.contains (s, f)) targets).map fun (n : Nat) => (n : Json)).toArray)]
   | "gateway" =>
     let owners ← listOf (fun j => do pure (← nat j "t", ← nat j "n", ← nats (← field j "s"))) (← field req "owners")
     let picks ← listOf (fun j => do pure (← nat j "t", ← nat j "n", ← nat j "a", ← nat j "s")) (← field req "picks")
